@@ -15,7 +15,7 @@ RULE = ("dimension lists with at least one two- or three-axis index, extra exten
         "possible (exposes transposed axes), several multi-axis dims at once, some extra-axis positions entirely at the common value (a slice without entries); every aggregate of C03 on both cube types: "
         "result.shape == extra extents (dimension order, then axis order) + category extents (+ fact columns) and every "
         "block result[j1..jm] == the same aggregate over the dims sliced at (j1..jm), computed by the real code on the "
-        "1-D slices, and == the direct per-cell computation (Fractions) over those slices; the model's slices1d labels/slices are compared with the real generator. Non-trivial = at least two "
+        "1-D slices, and == the direct per-cell computation (Fractions) over those slices - also for an index cube built BEFORE one of its multi-axis dimensions is updated in place; the model's slices1d labels/slices are compared with the real generator. Non-trivial = at least two "
         "sub-cubes; distinct by (case, aggregate, cube type)")
 ASSUMPTIONS = ["as C03 (exact dyadic stream)"]
 
@@ -104,6 +104,46 @@ def check(ctx, case, reqs, pend):
                 exp = {col: A.direct_cells(case, func, cols1d, ishape, col) for col in cols}
                 if not c03.compare(ctx, "%s.%s block %s" % (kind, func, js), bv, bm, exp, ishape, K, 0, desc, "C13-block-direct"):
                     break
+    # a long-lived index cube whose multi-axis dimension is updated in place between two aggregate calls
+    multi_axes = [a for a, d in enumerate(dense) if d.ndim > 1]
+    if multi_axes and N > 0:
+        a = ctx.rng.choice(multi_axes)
+        live = [ix.copy() for ix in idxs]
+        try:
+            cube = ccube(live, interacting_shape=ishape)
+            A.call(cube, "count", case, ("pair", 0))
+            d2 = dense[a].copy()
+            present = sorted(set(int(v) for v in d2.reshape(-1).tolist()) | {int(commons[a])})
+            for _ in range(ctx.rng.randrange(1, 4)):
+                pos = tuple(ctx.rng.randrange(s_) for s_ in d2.shape)
+                d2[pos] = ctx.rng.choice(present)
+            ent = {}
+            for pos in itertools.product(*[range(s_) for s_ in d2.shape]):
+                if d2[pos] != dense[a][pos]:
+                    ent.setdefault((int(d2[pos]),) + tuple(pos[1:]), []).append(pos[0])
+            live[a].update({k: np.array(sorted(v), dtype=np.uint32) for k, v in ent.items()})
+            case2 = dict(case, dense=[d2 if j == a else d for j, d in enumerate(dense)])
+            for func in ("count", "sum"):
+                desc2 = A.small_desc(case2, {"func": func, "cube": "ccube", "updated_dim": a, "live_cube": True})
+                ctx.evaluations += 1
+                v2, m2 = A.call(cube, func, case2, ("pair", 0))
+                ranges2 = [list(itertools.product(*[range(e) for e in d.shape[1:]])) for d in case2["dense"]]
+                done = False
+                for combo in itertools.product(*ranges2):
+                    js = tuple(e for hi in combo for e in hi)
+                    cols1d = [d[(slice(None),) + hi] for d, hi in zip(case2["dense"], combo)]
+                    cols = [None] if (K is None or func == "count") else list(range(K))
+                    exp = {col: A.direct_cells(case2, func, cols1d, ishape, col) for col in cols}
+                    if not c03.compare(ctx, "ccube.%s (cube built before dimension %d was updated in place) block %s" % (func, a, js),
+                                       v2[js], m2[js], exp, ishape, K, 0, desc2, "C13-block-direct"):
+                        done = True
+                        break
+                if done:
+                    break
+            ctx.hit("live_cube_updated")
+        except Exception as e:
+            ctx.oracle_fail("live cube after an in-place update raised %s: %s" % (type(e).__name__, str(e)[:60]),
+                            A.small_desc(case), cls="C13-raises")
     # slices1d of every multi-axis dim: model vs real generator (labels and slices)
     for ix in idxs:
         if len(ix.shape) > 1:
